@@ -19,7 +19,7 @@ case "${1:-}" in
     sed -i "s#/verif/harness/target#$LAB/verif/harness/target#" $LAB/verif/harness/.cargo/config.toml
     mkdir -p $LAB/verif/evidence ;;
   run)
-    patch="$2"; shift 2
+    patch="$(realpath "$2")"; shift 2
     git -C $LAB/repo checkout -q -- . && git -C $LAB/repo apply "$patch" || { echo "patch does not apply"; exit 2; }
     for c in "$@"; do
       out=$(cd $LAB/verif && VERIF_TARGET_DIR=$LAB/verif/harness/target ./check $c quick 2>&1)
